@@ -184,7 +184,7 @@ Definition Op3 a b c := Op (Op a b) c.
 Inductive family :=
 | FParafac | FNNParafac | FNNParafacHals | FConstrained | FTucker | FPartialTucker | FNNTucker | FNNTuckerHals
 | FRobustPca | FProx | FHalsNnls | FFista | FActiveSet | FAdmm | FSvd | FCpNormalize
-| FPure | FRandom | FLeverage | FSampleKR | FIndexed | FFlipSign
+| FPure | FRandom | FLeverage | FSampleKR | FIndexed | FPermute | FFlipSign
 | FRandParafac | FParafac2 | FSvdChain | FTrAls | FTrAlsSampled | FTTCross | FCmtf | FPower | FCpReg | FTuckerReg | FPlsr
 | FMoment | FMetric | FCompress.
 Inductive initk := ISvd | IRandom | IUser.
@@ -482,7 +482,8 @@ Definition skeleton (c : cfg) : prog :=
   | FRandom => shallow c ctx                        (* random_*(..., **context): tl.tensor(rng..., **context) *)
   | FLeverage => shallow c (Leaf (LConst F64))      (* documented: tl.tensor(..., dtype=tl.float64) *)
   | FSampleKR => mkprog [(vT, In_)] [] [("out0", Op (ctx_of T_) T_); ("out1", ints); ("out2", ints)]
-  | FIndexed => mkprog [(vT, In_)] [] [("out0", Op T_ T_); ("out1", ints); ("weights", Op T_ T_); ("factors", Op T_ T_)]
+  | FIndexed => mkprog [(vT, In_)] [] [("out0", Op T_ T_); ("out1", ints)]               (* congruence_coefficient: (value, permutation) *)
+  | FPermute => mkprog [(vT, In_)] [] [("weights", Op T_ T_); ("factors", Op T_ T_); ("out1", ints)]  (* cp_permute_factors: (cp tensors, permutations) *)
   | FFlipSign => mkprog [(vT, In_)] [] [("weights", RealOf T_); ("factors", Op T_ (ctx_of T_))]  (* weights = abs(weights) *)
   | _ => pure_prog c
   end.
